@@ -45,6 +45,7 @@ fn main() {
                 "C07" => checks::c07::run(&tier, seed),
                 "C08" => checks::c08::run(&tier, seed),
                 "C09" => checks::c09::run(&tier, seed),
+                "C10" => checks::c10::run(&tier, seed),
                 "C11" => checks::c11::run(&tier, seed),
                 "C12" => checks::c12::run(&tier, seed),
                 "C13" => checks::c13::run(&tier, seed),
@@ -69,6 +70,7 @@ fn main() {
                 "C07" => checks::c07::replay(&doc),
                 "C08" => checks::c08::replay(&doc),
                 "C09" => checks::c09::replay(&doc),
+                "C10" => checks::c10::replay(&doc),
                 "C11" => checks::c11::replay(&doc),
                 "C12" => checks::c12::replay(&doc),
                 "C13" => checks::c13::replay(&doc),
